@@ -95,7 +95,7 @@ class BaseBlock(ABC):
             Normalised data block.
         """
         zscore_re = stats.estimate_zscore(self.data, loc_method, scale_method, axis)
-        return self.__class__(zscore_re.data, self.header.new_header())
+        return self._new_block(zscore_re.data, self.header.new_header())
 
     def pad_samples(
         self,
@@ -132,10 +132,14 @@ class BaseBlock(ABC):
         data_pad = np.ones((self.data.shape[0], nsamps_final), dtype=self.data.dtype)
         data_pad *= pad_values[:, None]
         data_pad[:, offset : offset + self.data.shape[1]] = self.data
-        return self.__class__(
+        return self._new_block(
             data_pad,
             self.header.new_header({"nsamples": nsamps_final}),
         )
+
+    def _new_block(self, data: np.ndarray, header: Header) -> Self:
+        """Create a block of the same kind, keeping the state beyond the header."""
+        return self.__class__(data, header)
 
     @abstractmethod
     def plot(self, *args, **kwargs) -> None:  # noqa: ANN002, ANN003
@@ -204,6 +208,9 @@ class FilterbankBlock(BaseBlock):
         """Plot the data block."""
         raise NotImplementedError
 
+    def _new_block(self, data: np.ndarray, header: Header) -> FilterbankBlock:
+        return FilterbankBlock(data, header, self.dm)
+
     def downsample(
         self,
         ffactor: int = 1,
@@ -233,7 +240,7 @@ class FilterbankBlock(BaseBlock):
             "nsamples": self.header.nsamples // tfactor,
             "nchans": self.header.nchans // ffactor,
         }
-        return FilterbankBlock(new_ar, self.header.new_header(changes))
+        return FilterbankBlock(new_ar, self.header.new_header(changes), self.dm)
 
     def get_tim(self) -> TimeSeries:
         """Sum across all frequencies for each time sample.
@@ -411,6 +418,9 @@ class DMTBlock(BaseBlock):
     def plot(self, *args, **kwargs) -> None:  # noqa: ANN002, ANN003
         """Plot the data block."""
         raise NotImplementedError
+
+    def _new_block(self, data: np.ndarray, header: Header) -> DMTBlock:
+        return DMTBlock(data, header, self.dms)
 
     def _check_dm_input(self) -> None:
         if self.ndms != self.dms.size:
